@@ -580,3 +580,60 @@ pub fn same_grouping(a: &[Rec], b: &[Rec], map: &std::collections::HashMap<u64, 
     }
     true
 }
+
+
+/// Pipelined re-run of a judged sequential history on a batch tracker: the same calls are submitted back to back as
+/// one-scene batches whose results are read by consumer threads (the second retrieval discipline the batch API allows),
+/// in two thirds of the passes with every store write of the voting threads stalled at the guarded schedule point. A
+/// correct tracker associates call k against exactly the state the sequential run had before call k, so each pipelined
+/// outcome - ids translated through the bijection built so far - is judged against that snapshot by the same gate /
+/// constraint / optimal-assignment reference. `log`: (scene, detections, sequential records, pre-call snapshot, epoch).
+pub fn pipelined_pass(cfg: &Cfg, log: &[(u64, Vec<Det>, Vec<Rec>, Vec<LiveTrack>, usize)], ctl: Option<&crate::sched::Controller>, rng: &mut crate::Rng, rep: &mut crate::Report, counter_prefix: &str) -> Option<(String, Value)> {
+    let mut t2 = AnyTracker::new(cfg);
+    if let Some(c) = ctl {
+        if rng.chance(0.67) {
+            c.set_mode(crate::sched::Mode::Stall { site: "vote.store_write", us: 100 + rng.below(1400), seed: rng.u64() });
+            rep.count(&format!("{}pipelined_passes_with_stalled_store_writes", counter_prefix));
+        } else {
+            c.set_mode(crate::sched::Mode::Record);
+        }
+    }
+    let rxs: Vec<_> = log.iter().map(|(scene, dets, _, _, _)| t2.submit_with_consumer(&[(*scene, dets.clone())])).collect();
+    let mut to_seq: std::collections::HashMap<u64, u64> = std::collections::HashMap::new();
+    let mut verdict = None;
+    for (ci, (rx, (scene, dets, srecs, pre, epoch))) in rxs.into_iter().zip(log.iter()).enumerate() {
+        let precs = match rx.recv() {
+            Ok(mut v) if v.len() == 1 => v.pop().unwrap().1,
+            _ => {
+                verdict = Some(("result-never-delivered".to_string(), json!({"call": ci})));
+                break;
+            }
+        };
+        rep.count(&format!("{}pipelined_calls_compared", counter_prefix));
+        let translated: Vec<Rec> = precs.iter().map(|r| {
+            let mut t = r.clone();
+            t.id = to_seq.get(&r.id).cloned().unwrap_or((1u64 << 62) | r.id);
+            t
+        }).collect();
+        // same association as the judged sequential call?
+        let same = translated.len() == srecs.len() && translated.iter().zip(srecs.iter()).all(|(p, q)| p.id == q.id || (p.id >> 62 == 1 && !pre.iter().any(|t| t.id == q.id)));
+        if same {
+            for (p, q) in precs.iter().zip(srecs.iter()) {
+                to_seq.insert(p.id, q.id);
+            }
+            continue;
+        }
+        match judge_call(cfg, *scene, *epoch, dets, &translated, pre) {
+            Judgement::Invalid(sig, d) => {
+                verdict = Some((sig, json!({"call": ci, "scene": scene, "epoch": epoch, "detail": d, "sequential_records[id]": srecs.iter().map(|r| r.id).collect::<Vec<_>>(), "pipelined_records[id translated]": translated.iter().map(|r| r.id).collect::<Vec<_>>()})));
+            }
+            _ => rep.count(&format!("{}pipelined_divergences_valid_or_undecidable", counter_prefix)),
+        }
+        break;
+    }
+    drop(t2);
+    if let Some(c) = ctl {
+        let _ = c.finish();
+    }
+    verdict
+}
